@@ -301,9 +301,16 @@ func (e *Exec) siteHash(s string) uint64 {
 
 // Run executes main under cfg and returns the finished execution. It must not
 // be called while another execution is active.
+// LegacyOverride, when set, makes every execution use the legacy (pre-Go-1.23) timer-channel
+// semantics whatever its Config says (scenario twins, see props.withLegacy).
+var LegacyOverride bool
+
 func Run(cfg Config, main func()) *Exec {
 	if cur != nil {
 		panic("vrt: nested Run")
+	}
+	if LegacyOverride {
+		cfg.LegacyTimers = true
 	}
 	if cfg.MaxSteps == 0 {
 		cfg.MaxSteps = 200000
